@@ -4,6 +4,7 @@ import (
 	"fmt"
 	"go/token"
 	"go/types"
+	"sort"
 	"strings"
 
 	"golang.org/x/tools/go/ssa"
@@ -15,10 +16,17 @@ func runRound16(c *Ctx, spec *PropSpec) {
 	switch spec.ID {
 	case "C01":
 		c01CloneOwnsItsMaps(c)
+		c01HTTP1BodyIsReadNotConsumed(c)
+	case "C02":
+		c02WriteTimeoutAlwaysCloses(c)
 	case "C03":
 		c03FiredTimeoutIsSticky(c, "C03.R21")
+		retryKeepsTheGlobalTimer(c, "C03.R22")
 	case "C04":
 		c04VariableConditionsAreMatchers(c)
+		c04HandlerCarriesTheMatchedRoute(c)
+	case "C06":
+		c06WRRWeightIsTheConfiguredWeight(c)
 	case "C07":
 		boltv2TrailingCRCRefused(c, "C07.CRC")
 	case "C08":
@@ -28,19 +36,32 @@ func runRound16(c *Ctx, spec *PropSpec) {
 		c10EarlyUpstreamCloseIsDeferred(c)
 		c10ResetBeforeReceiveEndsTheStream(c)
 		c10TerminatedRequestResetsUpstream(c)
+	case "C11":
+		c11RelayedWritesKeepTheirConnection(c)
 	case "C12":
 		c12RouterUpdatesSerialised(c)
+		c12RouterPathRecordedAsGiven(c)
 	case "C13":
 		c13HashCoversRootCertificates(c)
 		c13SdsStaticCAAndSystemEntry(c)
+		c13ConfigShortcutComparesEverythingRead(c)
 	case "C14":
 		c14NoSendAfterInterval(c)
 		c14LocalReplyDetachesUpstream(c)
+		c14OneFilterObjectPerStream(c)
+	case "C15":
+		c15WeightedEntryAlwaysCarriesItsCriteria(c)
 	case "C17":
 		c17XdsRetryConditions(c)
 		c17XdsDirectResponseBodyExhaustive(c)
 		// the global timeout bounds the retries: registered under this property too
 		c03FiredTimeoutIsSticky(c, "C17.R23")
+		retryKeepsTheGlobalTimer(c, "C17.R24")
+		c17EveryAdditionKept(c)
+	case "C18":
+		c18WindowWrittenOnlyByItsOperations(c)
+	case "C19":
+		c19OrderedListsNotSorted(c)
 	case "C20":
 		c20EveryRawSectionRedacted(c)
 	}
@@ -1227,4 +1248,763 @@ func c03FiredTimeoutIsSticky(c *Ctx, rule string) {
 	}
 	c.Check(rule, funcKey(dr)+":timed-out-retry-flags-the-reset", dr.Pos(), ok, "on the timed-out edge doRetry flags upstreamReset and opens no attempt",
 		"doRetry sees that the request has timed out and neither flags the reset nor refrains from the attempt: the check behind the retry phase finds nothing to answer")
+}
+
+// ---------------------------------------------------------------------------------------------------------------------
+// C03.R22 = C17.R24 (seed C03-12): a granted retry leaves the global timer armed. The global response timer is armed once,
+// when the request was first sent (C17.R7), and bounds all tries; doRetry only arms the per-try timer. So nothing
+// setupRetry runs may stop or clear responseTimer - with no per-try timeout configured a retry that lands on a host which
+// never answers would wait for ever. cleanUp (the end of the request) stops both (C03.R5).
+func retryKeepsTheGlobalTimer(c *Ctx, rule string) {
+	c.Rule(rule, "setting up a retry neither stops nor clears the global response timer (it bounds all tries and is armed only once)", 1)
+	fn := c.M("pkg/proxy", "downStream", "setupRetry")
+	if fn == nil {
+		c.Unresolved(rule, "downStream.setupRetry")
+		return
+	}
+	stopped, niled := timerTouches(fn, 3)
+	c.Check(rule, funcKey(fn)+":global-timer-survives-the-retry", fn.Pos(), !stopped["responseTimer"] && !niled["responseTimer"], "setupRetry touches only the per-try timer",
+		"setupRetry stops the global response timer (directly or through a helper) and nothing arms it again - doRetry arms the per-try timer only, the global one is armed when the request is first sent: with no per-try timeout, a retry that lands on a host which accepts the request and never answers waits for ever, no reply is sent and the stream stays active")
+}
+
+// ---------------------------------------------------------------------------------------------------------------------
+// C04.R19 (seed C04-12): the route the matcher chose is the route the proxy gets. The default route handler is only a
+// carrier: DefaultMakeHandler stores what MatchRoute returned, and simpleHandler.IsAvailable refuses (any status other
+// than HandlerAvailable) only when there is no route. The state of the cluster the route names is not a matching
+// criterion: a direct-response or redirect route names no cluster at all, and a route whose cluster is unknown must be
+// answered as such (no healthy upstream), not fall back to "no route" - or to whatever answers that.
+func c04HandlerCarriesTheMatchedRoute(c *Ctx) {
+	const rule = "C04.R19"
+	c.Rule(rule, "the default route handler hands out the route MatchRoute chose: it refuses only when there is none, never because of cluster state", 2)
+	pkg := "pkg/router"
+	ia := c.M(pkg, "simpleHandler", "IsAvailable")
+	mk := c.F(pkg, "DefaultMakeHandler")
+	if ia == nil || mk == nil {
+		c.Unresolved(rule, "router.simpleHandler.IsAvailable / DefaultMakeHandler")
+		return
+	}
+	ord := ordCounter{}
+	n := 0
+	for _, in := range instrsWhere(ia, isReturn) {
+		ret := in.(*ssa.Return)
+		if len(ret.Results) != 2 {
+			continue
+		}
+		k, isK := constInt(unspill(ret, 1))
+		if isK && k == 0 { // HandlerAvailable
+			continue
+		}
+		n++
+		noRoute := false
+		for _, g := range guardsAt(ret.Block()) {
+			b, isB := g.Cond.(*ssa.BinOp)
+			if !isB || (b.Op != token.EQL && b.Op != token.NEQ) {
+				continue
+			}
+			_, f, _, isF := loadedField(b.X)
+			if isF && f == "route" && isNilConst(b.Y) && (b.Op == token.EQL) == g.True {
+				noRoute = true
+			}
+		}
+		c.Check(rule, ord.next(ia, "refuses-only-without-a-route"), ret.Pos(), noRoute, "a status other than HandlerAvailable is returned only under route == nil",
+			"simpleHandler.IsAvailable refuses a matched route for a reason other than there being none (the state of its cluster): DoRouteHandler turns that into \"no route\", so the first matching route in configuration order is dropped - a direct-response or redirect route, which names no cluster, never answers")
+	}
+	if n == 0 {
+		c.Fail(rule, funcKey(ia)+":refuses-only-without-a-route", ia.Pos(), "no refusing return found in simpleHandler.IsAvailable")
+	}
+	carried := false
+	for _, st := range storesToField(mk, "simpleHandler", "route", false) {
+		if call, ok := st.Val.(*ssa.Call); ok && methodName(call.Common()) == "MatchRoute" {
+			carried = true
+		}
+	}
+	c.Check(rule, funcKey(mk)+":carries-the-match", mk.Pos(), carried, "the handler's route is the result of MatchRoute",
+		"DefaultMakeHandler does not store the result of routers.MatchRoute as the handler's route")
+}
+
+// ---------------------------------------------------------------------------------------------------------------------
+// C06.R11 (seed C06-12): the weight the weighted round-robin scheduler sees is the configured weight, whatever the host's
+// state. The EDF scheduler keeps the lag bound only for weights that are constant between two re-queues; a weight that
+// depends on the health of the moment (a low weight while unhealthy) queues the host a whole virtual-time unit ahead, and
+// after its recovery it is starved for about sum(weights) picks. Clause: every return of WRRLoadBalancer.hostWeight
+// derives from the host's Weight() and lies under no condition on Health().
+func c06WRRWeightIsTheConfiguredWeight(c *Ctx) {
+	const rule = "C06.R11"
+	c.Rule(rule, "the weight handed to the weighted round-robin scheduler is the host's configured weight on every path (no health-dependent weight)", 1)
+	fn := c.M("pkg/upstream/cluster", "WRRLoadBalancer", "hostWeight")
+	if fn == nil {
+		c.Unresolved(rule, "WRRLoadBalancer.hostWeight")
+		return
+	}
+	ord := ordCounter{}
+	n := 0
+	for _, in := range instrsWhere(fn, isReturn) {
+		ret := in.(*ssa.Return)
+		if len(ret.Results) != 1 {
+			continue
+		}
+		n++
+		fromWeight := derivesFrom(unspill(ret, 0), func(v ssa.Value) bool {
+			cl, ok := v.(*ssa.Call)
+			return ok && methodName(cl.Common()) == "Weight"
+		})
+		onHealth := ""
+		for _, g := range guardsAt(ret.Block()) {
+			if derivesFrom(g.Cond, func(v ssa.Value) bool {
+				cl, ok := v.(*ssa.Call)
+				return ok && (methodName(cl.Common()) == "Health" || methodName(cl.Common()) == "ContainHealthFlag" || methodName(cl.Common()) == "HealthFlag")
+			}) {
+				onHealth = " under a condition on the host's health"
+			}
+		}
+		c.Check(rule, ord.next(fn, "weight-is-configured-weight"), ret.Pos(), fromWeight && onHealth == "", "returns a function of host.Weight() unconditionally",
+			"WRRLoadBalancer.hostWeight returns a weight that is not the configured one"+onHealth+": the scheduler queues the host by that weight, so after the state changes the host is served out of proportion (a heavy host that recovers is starved for about sum(weights) picks) - the bounded-lag guarantee of weighted round robin is lost in windows where every host is healthy")
+	}
+	if n == 0 {
+		c.Fail(rule, funcKey(fn)+":weight-is-configured-weight", fn.Pos(), "no return found in WRRLoadBalancer.hostWeight")
+	}
+}
+
+// ---------------------------------------------------------------------------------------------------------------------
+// C13.R28 (seed C13-12): a tls context is rebuilt whenever its configuration changes. sdsProvider.updateConfig stores the
+// new config and rebuilds the context; a shortcut that keeps the old context for an "unchanged" config is sound only if
+// its notion of unchanged covers every field the context is built from. Clause: every path of updateConfig that avoids
+// update() is guarded by a comparator of the two configs, and the fields of v2.TLSConfig that comparator reads are a
+// superset of the fields read by the functions that build the context (computed on every run from newTLSContext's reach).
+func c13ConfigShortcutComparesEverythingRead(c *Ctx) {
+	const rule = "C13.R28"
+	c.Rule(rule, "an sds tls context is rebuilt on every config update, or the test that skips the rebuild compares every config field the context is built from", 1)
+	pkg := "pkg/mtls"
+	fn := c.M(pkg, "sdsProvider", "updateConfig")
+	build := c.F(pkg, "newTLSContext")
+	if fn == nil || build == nil {
+		c.Unresolved(rule, "sdsProvider.updateConfig / newTLSContext")
+		return
+	}
+	cfgFields := func(f *ssa.Function) map[string]bool {
+		out := map[string]bool{}
+		forEachInstr(f, true, func(_ *ssa.Function, in ssa.Instruction) {
+			switch x := in.(type) {
+			case *ssa.FieldAddr:
+				if t, fld, _, ok := fieldAddrInfo(x); ok && strings.HasSuffix(t, "v2.TLSConfig") {
+					out[fld] = true
+				}
+			case *ssa.Field:
+				if strings.HasSuffix(x.X.Type().String(), "v2.TLSConfig") {
+					out[derefStructField(x)] = true
+				}
+			}
+		})
+		return out
+	}
+	isUpdate := func(x ssa.Instruction) bool {
+		ci, ok := x.(ssa.CallInstruction)
+		return ok && methodName(ci.Common()) == "update"
+	}
+	skip := existsPath(fn, nil, isReturn, isUpdate)
+	if skip == nil {
+		c.Pass(rule, funcKey(fn)+":rebuilt-or-compared-completely", fn.Pos(), "every path of updateConfig calls update()")
+		return
+	}
+	read := map[string]bool{}
+	// through the config hooks too (ClientAuth is decided by a hook from verify_client and require_client_cert)
+	for f := range c.ifaceReach([]*ssa.Function{build}, pkg) {
+		for k := range cfgFields(f) {
+			read[k] = true
+		}
+	}
+	// the comparators that guard the skipping return
+	var missing []string
+	found := false
+	for _, g := range guardsAt(skip.Block()) {
+		derivesFrom(g.Cond, func(v ssa.Value) bool {
+			cl, ok := v.(*ssa.Call)
+			if !ok {
+				return false
+			}
+			callee := cl.Common().StaticCallee()
+			if callee == nil || callee.Pkg != fn.Pkg {
+				return false
+			}
+			n := 0
+			for _, p := range callee.Params {
+				if strings.HasSuffix(p.Type().String(), "v2.TLSConfig") {
+					n++
+				}
+			}
+			if n < 2 {
+				return false
+			}
+			found = true
+			cmp := map[string]bool{}
+			for f := range staticReach([]*ssa.Function{callee}, pkg) {
+				for k := range cfgFields(f) {
+					cmp[k] = true
+				}
+			}
+			for k := range read {
+				if !cmp[k] {
+					missing = append(missing, k)
+				}
+			}
+			return false
+		})
+	}
+	sort.Strings(missing)
+	detail := "sdsProvider.updateConfig can return without rebuilding the context and no comparison of the old and the new config guards that return"
+	if found {
+		detail = fmt.Sprintf("sdsProvider.updateConfig keeps the old tls context when a comparison finds the config unchanged, but the comparison does not look at %v, which the context is built from: an update that changes only that (require_client_cert turned on for a listener) is stored and not applied - the listener goes on admitting clients without a certificate until the next secret push", missing)
+	}
+	c.Check(rule, funcKey(fn)+":rebuilt-or-compared-completely", skip.Pos(), found && len(missing) == 0, "the skipping path is guarded by a comparison of every field the context is built from", detail)
+}
+
+// ---------------------------------------------------------------------------------------------------------------------
+// C15.R19 (seed C15-12): a weighted cluster entry always carries the criteria object built from its own metadata_match,
+// also when that is empty. Present-but-empty criteria and absent criteria are different things to the subset balancer
+// (the former takes the fallback policy, the latter balances over all hosts), so leaving the field nil for an entry
+// without metadata_match silently turns fallback NO_FALLBACK / DEFAULT_SUBSET into "any endpoint" for that entry.
+func c15WeightedEntryAlwaysCarriesItsCriteria(c *Ctx) {
+	const rule = "C15.R19"
+	c.Rule(rule, "every weighted cluster entry carries the criteria built from its own metadata_match, unconditionally (empty criteria are not absent criteria)", 1)
+	fn := c.F("pkg/router", "getWeightedClusterEntry")
+	if fn == nil {
+		c.Unresolved(rule, "router.getWeightedClusterEntry")
+		return
+	}
+	var stores []*ssa.Store
+	for _, st := range storesToField(fn, "weightedClusterEntry", "clusterMetadataMatchCriteria", false) {
+		if derivesFrom(st.Val, func(v ssa.Value) bool {
+			cl, ok := v.(*ssa.Call)
+			return ok && strings.HasSuffix(calleeName(cl.Common()), "NewMetadataMatchCriteriaImpl")
+		}) {
+			stores = append(stores, st)
+		}
+	}
+	ord := ordCounter{}
+	n := 0
+	for _, in := range instrsWhere(fn, func(x ssa.Instruction) bool { _, ok := x.(*ssa.MapUpdate); return ok }) {
+		n++
+		ok := false
+		for _, st := range stores {
+			if instrDominates(st, in) {
+				ok = true
+			}
+		}
+		c.Check(rule, ord.next(fn, "entry-carries-criteria"), in.Pos(), ok, "the entry filed carries NewMetadataMatchCriteriaImpl(its metadata_match) on every path",
+			"getWeightedClusterEntry files a weighted cluster entry whose criteria can be nil: the route then reports no criteria at all for that entry, and the subset load balancer of the target cluster balances over every host instead of applying its fallback policy (no host for NO_FALLBACK, the default subset for DEFAULT_SUBSET)")
+	}
+	if n == 0 {
+		c.Fail(rule, funcKey(fn)+":entry-carries-criteria", fn.Pos(), "no entry filed in getWeightedClusterEntry")
+	}
+}
+
+// ---------------------------------------------------------------------------------------------------------------------
+// C19.R17 (seed C19-12): lists whose order means something are dumped in the order they are kept. The sections the
+// effective config keeps in maps (listeners, clusters, routers by name) may be written in any order; extends, filters,
+// filter chains, routes, virtual hosts, weighted clusters and hosts are applied in list order when the dump is loaded
+// (extends are run one by one in config order, the first matching route wins, filters run in chain order), so nothing on
+// the dump path may hand a slice of such elements to package sort.
+var c19OrderedElems = map[string]string{
+	"ExtendConfig":    "extends are handed to their handlers one by one in config order",
+	"Filter":          "filters run in chain order",
+	"FilterChain":     "the first matching filter chain is used",
+	"Router":          "the first matching route wins",
+	"VirtualHost":     "virtual hosts are indexed in order, the first default wins",
+	"WeightedCluster": "the cumulative-weight scan runs in list order",
+	"Host":            "round robin and maglev start from list order",
+	"HeaderMatcher":   "conditions are reported in order",
+}
+
+func c19OrderedListsNotSorted(c *Ctx) {
+	const rule = "C19.R17"
+	c.Rule(rule, "no list whose order is meaningful on reload (extends, filters, chains, routes, virtual hosts, weighted clusters, hosts) is sorted on the dump path", 1)
+	pkg := "pkg/configmanager"
+	var roots []*ssa.Function
+	for _, n := range []string{"transferConfig", "DumpJSON", "dumpConfig", "DumpConfig"} {
+		if f := c.F(pkg, n); f != nil {
+			roots = append(roots, f)
+		}
+	}
+	if len(roots) == 0 {
+		c.Unresolved(rule, "configmanager.transferConfig")
+		return
+	}
+	nsort := 0
+	bad := 0
+	for f := range staticReach(roots, pkg) {
+		ord := ordCounter{}
+		forEachInstr(f, true, func(ff *ssa.Function, in ssa.Instruction) {
+			ci, ok := in.(ssa.CallInstruction)
+			if !ok {
+				return
+			}
+			callee := ci.Common().StaticCallee()
+			if callee == nil || callee.Pkg == nil || callee.Pkg.Pkg.Path() != "sort" || len(ci.Common().Args) == 0 {
+				return
+			}
+			nsort++
+			a := ci.Common().Args[0]
+			if mi, isMI := a.(*ssa.MakeInterface); isMI {
+				a = mi.X
+			}
+			sl, isSl := a.Type().Underlying().(*types.Slice)
+			if !isSl {
+				return
+			}
+			el := sl.Elem()
+			if p, isP := el.(*types.Pointer); isP {
+				el = p.Elem()
+			}
+			name := shortTypeName(el)
+			if i := strings.LastIndex(name, "."); i >= 0 {
+				name = name[i+1:]
+			}
+			if why, is := c19OrderedElems[name]; is {
+				bad++
+				c.Fail(rule, ord.next(ff, "ordered-list-sorted:"+name), in.Pos(), fmt.Sprintf("%s sorts a list of %s on the dump path, but %s: a mosn started from the dump applies them in another order than the running one (dump and reload are no longer equivalent, while dump-reload-dump still compares equal)", ff.Name(), name, why))
+			}
+		})
+	}
+	if bad == 0 {
+		c.Pass(rule, modPkg(pkg)+":ordered-lists-not-sorted", token.NoPos, fmt.Sprintf("%d sort calls on the dump path, none on an order-sensitive list", nsort))
+	}
+}
+
+// ---------------------------------------------------------------------------------------------------------------------
+// C01.R25 (seed C01-12): the HTTP/1 client reads the request body, it does not consume it. The buffer AppendData gets is
+// the proxy's one copy of the downstream request body, and a retry sends it again: the client stream may look at it
+// (Bytes, Len, ...) but must not hand it to anything that reads it empty - as an io.Reader / body stream it is drained by
+// the first write, and the retry forwards Content-Length: 0 and no body.
+func c01HTTP1BodyIsReadNotConsumed(c *Ctx) {
+	const rule = "C01.R25"
+	c.Rule(rule, "the HTTP/1 client stream only looks at the request body buffer (Bytes/Len): it is never handed over as a reader that drains it, so a retry forwards the same body", 1)
+	fn := c.M("pkg/stream/http", "clientStream", "AppendData")
+	if fn == nil {
+		c.Unresolved(rule, "http.clientStream.AppendData")
+		return
+	}
+	var data *ssa.Parameter
+	for _, p := range fn.Params {
+		if strings.HasSuffix(p.Type().String(), "IoBuffer") {
+			data = p
+		}
+	}
+	if data == nil {
+		c.Unresolved(rule, "the IoBuffer parameter of clientStream.AppendData")
+		return
+	}
+	readOnly := map[string]bool{"Bytes": true, "Len": true, "Cap": true, "String": true, "Peek": true, "Count": true, "Clone": true}
+	bad := ""
+	var pos token.Pos = fn.Pos()
+	var walk func(v ssa.Value, d int)
+	walk = func(v ssa.Value, d int) {
+		if d > 4 {
+			return
+		}
+		for _, r := range refs(v) {
+			switch u := r.(type) {
+			case *ssa.DebugRef:
+			case *ssa.ChangeInterface:
+				walk(u, d+1)
+			case *ssa.MakeInterface:
+				walk(u, d+1)
+			case *ssa.Phi:
+				walk(u, d+1)
+			case ssa.CallInstruction:
+				cc := u.Common()
+				if cc.IsInvoke() && cc.Value == v {
+					if !readOnly[cc.Method.Name()] {
+						bad = "calls " + cc.Method.Name() + "() on it"
+						pos = u.Pos()
+					}
+					continue
+				}
+				bad = "hands it to " + shortCallee(cc)
+				pos = u.Pos()
+			case *ssa.Store:
+				if u.Val == v {
+					bad = "stores it"
+					pos = u.Pos()
+				}
+			}
+		}
+	}
+	walk(data, 0)
+	c.Check(rule, funcKey(fn)+":body-read-not-consumed", pos, bad == "", "the body buffer is only read through Bytes/Len",
+		"http clientStream.AppendData "+bad+": whatever reads the proxy's request body buffer as a stream leaves it empty, and the proxy sends the same buffer again on a retry (5xx, reset, per-try timeout) - the second upstream gets Content-Length: 0 and no body")
+}
+
+// ---------------------------------------------------------------------------------------------------------------------
+// C11.O23 (seed C11-12): a handed-over connection can be written to by the old process any number of times. Every
+// response the old mosn still owes to a transferred connection is relayed as a message of its own and looked up in the
+// transfer map by connection id; so nothing on the relay path may take the entry out of the map - the first relayed
+// response would be delivered and every later one dropped ("connection not found"), a request in flight during the
+// upgrade never gets its answer.
+func c11RelayedWritesKeepTheirConnection(c *Ctx) {
+	const rule = "C11.O23"
+	c.Rule(rule, "the relay of late writes to a handed-over connection only looks the connection up: no entry is removed from the transfer map on that path", 1)
+	pkg := "pkg/network"
+	th := c.F(pkg, "transferHandler")
+	if th == nil {
+		c.Unresolved(rule, "network.transferHandler")
+		return
+	}
+	lookups, bad := 0, 0
+	for f := range staticReach([]*ssa.Function{th}, pkg) {
+		ord := ordCounter{}
+		forEachInstr(f, true, func(ff *ssa.Function, in ssa.Instruction) {
+			ci, ok := in.(ssa.CallInstruction)
+			if !ok {
+				return
+			}
+			n := calleeName(ci.Common())
+			if !strings.Contains(n, "sync.Map).") || len(ci.Common().Args) == 0 {
+				return
+			}
+			// the transfer map is handed down as a *sync.Map parameter; other maps of the package (the UDP proxy map, a
+			// package variable) are none of this clause's business
+			if _, isParam := ci.Common().Args[0].(*ssa.Parameter); !isParam {
+				if fv, isFV := ci.Common().Args[0].(*ssa.FreeVar); !isFV || !strings.HasSuffix(fv.Type().String(), "sync.Map") {
+					return
+				}
+			}
+			m := methodName(ci.Common())
+			switch m {
+			case "Load":
+				lookups++
+			case "Delete", "LoadAndDelete", "CompareAndDelete", "Swap", "CompareAndSwap", "Clear":
+				bad++
+				c.Fail(rule, ord.next(ff, "transfer-map-entry-removed"), in.Pos(), fmt.Sprintf("%s removes an entry from the transfer map (%s) on the path that relays the old process's late writes: the first response relayed to a handed-over connection is delivered, every later one finds no connection and is dropped - a request that was in flight during the hot upgrade never gets its answer", ff.Name(), m))
+			}
+		})
+	}
+	if lookups == 0 {
+		c.Fail(rule, funcKey(th)+":transfer-map-looked-up", th.Pos(), "no look-up in the transfer map reachable from transferHandler")
+		return
+	}
+	if bad == 0 {
+		c.Pass(rule, funcKey(th)+":transfer-map-entries-stay", th.Pos(), fmt.Sprintf("%d look-ups, no removal", lookups))
+	}
+}
+
+// ---------------------------------------------------------------------------------------------------------------------
+// C02.R23 (seed C02-12): a write that ran into the write deadline ends the connection, however much of it the peer
+// took. A frame that was written in part cannot be taken back: whatever is written next on the connection is read by the
+// peer as the rest of that frame, so a response is delivered under another request's header and id. Clause: in
+// connection.writeDirectly every way from doWrite to a return leads through the error check that closes the connection
+// on a timeout (the `err != nil` test guarding Close(..., OnWriteTimeout)).
+func c02WriteTimeoutAlwaysCloses(c *Ctx) {
+	const rule = "C02.R23"
+	c.Rule(rule, "after a write attempt every return of writeDirectly lies behind the error check that closes the connection on a write timeout (a partly written frame is never followed by another frame)", 1)
+	fn := c.M("pkg/network", "connection", "writeDirectly")
+	if fn == nil {
+		c.Unresolved(rule, "network.connection.writeDirectly")
+		return
+	}
+	writes := callsIn(fn, false, calledAs("doWrite"))
+	var check *ssa.If
+	for _, cs := range callsIn(fn, false, calledAs("Close")) {
+		args := argsOf(cs.Instr.Common())
+		isTimeoutClose := false
+		for _, a := range args {
+			if s, ok := constStringVal(a); ok && s == "OnWriteTimeout" {
+				isTimeoutClose = true
+			}
+		}
+		if !isTimeoutClose {
+			continue
+		}
+		for _, g := range guardsAt(cs.Instr.Block()) {
+			b, ok := g.Cond.(*ssa.BinOp)
+			if ok && b.Op == token.NEQ && isNilConst(b.Y) && b.X.Type().String() == "error" && g.True {
+				check = g.If
+			}
+		}
+	}
+	if len(writes) == 0 || check == nil {
+		c.Fail(rule, funcKey(fn)+":timeout-check-on-every-way-out", fn.Pos(), "writeDirectly has no doWrite call, or no `err != nil` check guarding Close(…, OnWriteTimeout)")
+		return
+	}
+	var bad ssa.Instruction
+	for _, w := range writes {
+		if r := existsPath(fn, w.Instr, isReturn, func(x ssa.Instruction) bool { return x == ssa.Instruction(check) }); r != nil {
+			bad = r
+		}
+	}
+	pos := check.Pos()
+	if bad != nil {
+		pos = nearestPos(bad)
+	}
+	c.Check(rule, funcKey(fn)+":timeout-check-on-every-way-out", pos, bad == nil, "every return behind doWrite passes the error check that closes on a timeout",
+		"writeDirectly can return after a write attempt without passing the check that closes the connection on a write timeout: a frame the peer took only in part stays unfinished on a connection that goes on being used - the next frame is read as its remainder, and a client receives, under the header and id of one request, bytes of the response to another")
+}
+
+// ---------------------------------------------------------------------------------------------------------------------
+// C14.R18 (seed C14-12): one filter object per stream. A stream filter keeps the handler of the stream it was added to
+// (SetReceiveFilterHandler / SetSenderFilterHandler); a factory that registers the same object for every stream makes
+// every verdict act on the stream that was created last - the denial of one request is installed on another request's
+// downstream and the denied request is forwarded. Clause: in every CreateFilterChain of the module the filter handed to
+// AddStreamReceiverFilter / AddStreamSenderFilter is made in that call; it is never (a value derived from) a field of the
+// factory, also not through a helper method of the factory.
+func c14OneFilterObjectPerStream(c *Ctx) {
+	const rule = "C14.R18"
+	c.Rule(rule, "every stream filter factory hands the chain a filter object made for that stream, never one kept in the factory", 8)
+	n := 0
+	var fns []*ssa.Function
+	for fn := range c.all {
+		if fn.Name() == "CreateFilterChain" && fn.Signature.Recv() != nil && len(fn.Blocks) > 0 && fn.Pkg != nil && strings.HasPrefix(fn.Pkg.Pkg.Path(), modPath) {
+			fns = append(fns, fn)
+		}
+	}
+	sort.Slice(fns, func(i, j int) bool { return fns[i].String() < fns[j].String() })
+	var fromFactory func(v ssa.Value, recv ssa.Value, d int) string
+	fromFactory = func(v ssa.Value, recv ssa.Value, d int) string {
+		if d > 5 || v == nil {
+			return ""
+		}
+		switch x := v.(type) {
+		case *ssa.MakeInterface:
+			return fromFactory(x.X, recv, d+1)
+		case *ssa.ChangeInterface:
+			return fromFactory(x.X, recv, d+1)
+		case *ssa.TypeAssert:
+			return fromFactory(x.X, recv, d+1)
+		case *ssa.Phi:
+			for _, e := range x.Edges {
+				if why := fromFactory(e, recv, d+1); why != "" {
+					return why
+				}
+			}
+		case *ssa.UnOp:
+			if x.Op == token.MUL {
+				if fa, ok := x.X.(*ssa.FieldAddr); ok {
+					root := fa.X
+					for i := 0; i < 4; i++ {
+						if f2, ok2 := root.(*ssa.FieldAddr); ok2 {
+							root = f2.X
+						} else {
+							break
+						}
+					}
+					if paramBehind(root) == recv {
+						_, f, _, _ := fieldAddrInfo(fa)
+						return "the factory's field " + f
+					}
+				}
+			}
+		case *ssa.Extract:
+			return fromFactory(x.Tuple, recv, d+1)
+		case *ssa.Call:
+			callee := x.Common().StaticCallee()
+			if callee == nil || callee.Pkg == nil || !strings.HasPrefix(callee.Pkg.Pkg.Path(), modPath) || len(callee.Blocks) == 0 {
+				return ""
+			}
+			// a helper of the factory: what it returns, with its own receiver standing for the factory when it is called on it
+			var calleeRecv ssa.Value
+			if callee.Signature.Recv() != nil && len(callee.Params) > 0 && len(x.Common().Args) > 0 && x.Common().Args[0] == recv {
+				calleeRecv = callee.Params[0]
+			}
+			if calleeRecv == nil {
+				return ""
+			}
+			for _, in := range instrsWhere(callee, isReturn) {
+				ret := in.(*ssa.Return)
+				for i := range ret.Results {
+					if why := fromFactory(unspill(ret, i), calleeRecv, d+1); why != "" {
+						return why + " (through " + callee.Name() + "())"
+					}
+				}
+			}
+		}
+		return ""
+	}
+	for _, fn := range fns {
+		recv := ssa.Value(fn.Params[0])
+		ord := ordCounter{}
+		for _, cs := range callsIn(fn, false, func(cc *ssa.CallCommon) bool {
+			m := methodName(cc)
+			return m == "AddStreamReceiverFilter" || m == "AddStreamSenderFilter"
+		}) {
+			args := argsOf(cs.Instr.Common())
+			if len(args) == 0 {
+				continue
+			}
+			n++
+			why := fromFactory(args[0], recv, 0)
+			c.Check(rule, ord.next(fn, "filter-made-per-stream"), cs.Instr.Pos(), why == "", "the filter registered is made in this call",
+				fmt.Sprintf("%s registers %s as the filter of every stream: the filter keeps the handler of the stream it was added to last, so its verdict (a denial, a hijack reply) is installed on another request's downstream while the request it judged goes on to the upstream", fn.String(), why))
+		}
+	}
+	if n < 8 {
+		c.Fail(rule, "module:filter-made-per-stream", token.NoPos, fmt.Sprintf("only %d filter registrations found in the CreateFilterChain methods of the loaded packages", n))
+	}
+}
+
+// paramBehind: a parameter that a closure captures is spilled by go/ssa into a heap cell (`t0 = new *T (p); *t0 = p`) and
+// read back through it; the load of such a cell stands for the parameter.
+func paramBehind(v ssa.Value) ssa.Value {
+	u, ok := v.(*ssa.UnOp)
+	if !ok || u.Op != token.MUL {
+		return v
+	}
+	al, ok := u.X.(*ssa.Alloc)
+	if !ok {
+		return v
+	}
+	var p ssa.Value
+	for _, r := range refs(al) {
+		if st, isSt := r.(*ssa.Store); isSt && st.Addr == ssa.Value(al) {
+			if _, isP := st.Val.(*ssa.Parameter); !isP || (p != nil && p != st.Val) {
+				return v
+			}
+			p = st.Val
+		}
+	}
+	if p != nil {
+		return p
+	}
+	return v
+}
+
+// ---------------------------------------------------------------------------------------------------------------------
+// C12.R20 (seed C12-12): the recorded router is the update as it came. SetRouter records where the router's virtual hosts
+// live (the router_configs path, kept aside) together with the router itself; the path recorded is the one the update
+// carries, unconditionally. A path kept from an earlier configuration next to inline virtual hosts of the update gives a
+// dump with both router_configs and virtual_hosts, which the loader refuses - a new mosn cannot start from it.
+func c12RouterPathRecordedAsGiven(c *Ctx) {
+	const rule = "C12.R20"
+	c.Rule(rule, "SetRouter records the router_configs path the update carries, unconditionally (path and virtual hosts always come from the same update)", 1)
+	fn := c.F("pkg/configmanager", "SetRouter")
+	if fn == nil {
+		c.Unresolved(rule, "configmanager.SetRouter")
+		return
+	}
+	n := 0
+	for _, in := range instrsWhere(fn, func(x ssa.Instruction) bool { _, ok := x.(*ssa.MapUpdate); return ok }) {
+		mu := in.(*ssa.MapUpdate)
+		if _, f, _, ok := loadedField(mu.Map); !ok || f != "routerConfigPath" {
+			continue
+		}
+		n++
+		given := derivesFrom(mu.Value, func(v ssa.Value) bool {
+			_, f, _, ok := loadedField(v)
+			if ok && f == "RouterConfigPath" {
+				return true
+			}
+			if fl, isF := v.(*ssa.Field); isF && derefStructField(fl) == "RouterConfigPath" {
+				return true
+			}
+			return false
+		})
+		cond := ""
+		// unconditional: no way from the entry to a return goes round the store
+		if existsPath(fn, nil, isReturn, func(x ssa.Instruction) bool { return x == ssa.Instruction(mu) }) != nil {
+			cond = " only under a condition"
+		}
+		c.Check(rule, funcKey(fn)+":path-recorded-as-given", mu.Pos(), given && cond == "", "routerConfigPath[name] = router.RouterConfigPath, unconditionally",
+			"SetRouter records the router_configs path"+cond+" instead of always taking the one the update carries: a router configured from a directory and later replaced by an update with inline virtual hosts is dumped with both router_configs and virtual_hosts, which the loader refuses (\"only one of static config or dynamic config\") - a fresh mosn, or the next generation of a hot upgrade, cannot start from the dumped configuration")
+	}
+	if n == 0 {
+		c.Fail(rule, funcKey(fn)+":path-recorded-as-given", fn.Pos(), "no store into routerConfigPath in SetRouter")
+	}
+}
+
+// ---------------------------------------------------------------------------------------------------------------------
+// C17.R25 (seed C17-12): every configured header addition becomes one addition. getHeaderPair turns the headers_to_add
+// list into the list the request path applies one after the other (append or overwrite per entry, C17.R1); it must append
+// one pair per valid entry and never write into a pair filed earlier - replacing an earlier entry of the same name is
+// only right when the later one overwrites, and loses the earlier values when it appends.
+func c17EveryAdditionKept(c *Ctx) {
+	const rule = "C17.R25"
+	c.Rule(rule, "getHeaderPair files one pair per configured addition: pairs are only appended, none is replaced or skipped once it was built", 2)
+	fn := c.F("pkg/router", "getHeaderPair")
+	if fn == nil {
+		c.Unresolved(rule, "router.getHeaderPair")
+		return
+	}
+	// no store into an element of a []*headerPair
+	var repl ssa.Instruction
+	var pairs []ssa.Instruction
+	forEachInstr(fn, false, func(_ *ssa.Function, in ssa.Instruction) {
+		if st, ok := in.(*ssa.Store); ok {
+			if ia, isIA := st.Addr.(*ssa.IndexAddr); isIA && strings.Contains(ia.X.Type().String(), "headerPair") {
+				// the backing array of append's variadic argument is not the list
+				if _, isAlloc := ia.X.(*ssa.Alloc); !isAlloc {
+					repl = in
+				}
+			}
+		}
+		if al, ok := in.(*ssa.Alloc); ok && strings.HasSuffix(al.Type().String(), "headerPair") && al.Heap {
+			pairs = append(pairs, in)
+		}
+	})
+	pos := fn.Pos()
+	if repl != nil {
+		pos = repl.Pos()
+	}
+	c.Check(rule, funcKey(fn)+":no-pair-replaced", pos, repl == nil, "no element of the pair list is overwritten",
+		"getHeaderPair writes into a pair it filed earlier (a later entry with the same header name replaces the earlier one): when the later entry appends, the values of the earlier entries are lost - a header configured as a,b (append) arrives as b")
+	// every pair built reaches the append before the next iteration / the return
+	isAppend := func(x ssa.Instruction) bool {
+		ci, ok := x.(*ssa.Call)
+		if !ok {
+			return false
+		}
+		b, isB := ci.Common().Value.(*ssa.Builtin)
+		return isB && b.Name() == "append"
+	}
+	skipped := false
+	loops := naturalLoops(fn)
+	for _, p := range pairs {
+		for h := range loops {
+			if existsPath(fn, p, func(x ssa.Instruction) bool { return x.Block() == h && instrIndex(x) == 0 }, isAppend) != nil {
+				skipped = true
+			}
+		}
+		if existsPath(fn, p, isReturn, isAppend) != nil {
+			skipped = true
+		}
+	}
+	c.Check(rule, funcKey(fn)+":every-pair-appended", fn.Pos(), len(pairs) > 0 && !skipped, "every pair built is appended before the next entry is looked at",
+		"getHeaderPair builds the pair of a configured addition and can go on to the next entry without appending it: that addition is never applied")
+}
+
+// ---------------------------------------------------------------------------------------------------------------------
+// C18.W20 (seed C18-12): a flow-control window is changed only by the window's own operations. `flow.n` is the number of
+// bytes the peer still allows; take/add keep it in step with what the peer computes from the frames it sent and received
+// (RFC 7540 6.9: a SETTINGS change may leave it negative, and the debt is paid by later WINDOW_UPDATEs). A direct store
+// into it from connection code - clamping a negative window to zero - makes MOSN's record run ahead of the peer's, and
+// after the next WINDOW_UPDATE it sends more than the peer allows.
+func c18WindowWrittenOnlyByItsOperations(c *Ctx) {
+	const rule = "C18.W20"
+	c.Rule(rule, "the byte count of a flow-control window is written only by the methods of the window type (add/take/setConnFlow-style operations), never by connection code", 2)
+	pkg := "pkg/module/http2"
+	n := 0
+	for _, fn := range c.PkgFuncs(pkg) {
+		ord := ordCounter{}
+		forEachInstr(fn, true, func(ff *ssa.Function, in ssa.Instruction) {
+			st, ok := in.(*ssa.Store)
+			if !ok {
+				return
+			}
+			t, f, _, ok := fieldAddrInfo(st.Addr)
+			if !ok || f != "n" || !strings.HasSuffix(t, "http2.flow") {
+				return
+			}
+			n++
+			own := false
+			root := ff
+			for root.Parent() != nil {
+				root = root.Parent()
+			}
+			if r := root.Signature.Recv(); r != nil && strings.HasSuffix(strings.TrimPrefix(r.Type().String(), "*"), "http2.flow") {
+				own = true
+			}
+			c.Check(rule, ord.next(ff, "window-written-by-its-own-operation"), st.Pos(), own, "flow.n is stored by a method of flow",
+				fmt.Sprintf("%s stores into flow.n directly: the window no longer equals what the peer computes from the frames exchanged (a window a SETTINGS change left negative must stay negative until WINDOW_UPDATEs pay the debt), so after the next WINDOW_UPDATE more DATA is sent than the peer allows - a flow-control violation the peer answers with FLOW_CONTROL_ERROR", ff.Name()))
+		})
+	}
+	if n < 2 {
+		c.Fail(rule, modPkg(pkg)+".flow:window-written-by-its-own-operation", token.NoPos, fmt.Sprintf("only %d stores into flow.n found", n))
+	}
 }
